@@ -90,6 +90,10 @@ pub fn start(eval: fn(&Value) -> Value) {
       if g == 0 {
         // a request that does not return must not outlive the run that asked
         unsafe { libc::alarm(15) };
+        // the reference process differs from the requester in everything a process is born with that code
+        // could (wrongly) let through into its result: pid (by construction), working directory,
+        // environment, heap layout
+        perturb_identity();
         let out = eval(&r);
         send(resp[1], &out);
         unsafe { libc::_exit(0) };
@@ -133,4 +137,31 @@ pub fn ask(request: &Value) -> Option<Value> {
     return None;
   }
   Some(v)
+}
+
+/// Give the calling (reference) process another working directory, other values for the environment
+/// variables a build or a user session defines, and a shifted heap.
+fn perturb_identity() {
+  let _ = std::env::set_current_dir("/");
+  for (k, v) in [
+    ("USER", "someone-else"),
+    ("HOME", "/nonexistent-home"),
+    ("PWD", "/"),
+    ("CARGO_MANIFEST_DIR", "/another/manifest/dir"),
+    ("CARGO_PKG_NAME", "another-package"),
+    ("OUT_DIR", "/another/out/dir"),
+    ("HOSTNAME", "another-host"),
+    ("TZ", "Pacific/Kiritimati"),
+    ("LANG", "tr_TR.UTF-8"),
+    ("LC_ALL", "tr_TR.UTF-8"),
+    ("SOURCE_DATE_EPOCH", "86400"),
+  ] {
+    std::env::set_var(k, v);
+  }
+  // shift the heap: blocks of odd sizes that stay allocated
+  let mut keep: Vec<Vec<u8>> = Vec::new();
+  for i in 0..17usize {
+    keep.push(vec![0u8; 1000 + 137 * i]);
+  }
+  std::mem::forget(keep);
 }
